@@ -10,9 +10,10 @@ import core
 THEOREMS = core.theorems_in(['C01a.lean'], 'Flowdyn.C01') + ['Flowdyn.C15.balance2d', 'Flowdyn.C15.periodic2d', 'Flowdyn.C06.fdJac_conservative', 'Flowdyn.C06.thetaStep_conserves']
 AUDIT_IMPORTS = ['Flowdyn.Props.C15', 'Flowdyn.Props.C06', 'Flowdyn.Props.C07b']
 THEOREMS = THEOREMS + ['Flowdyn.C07.loop_preserves', 'Flowdyn.C07.run_preserves', 'Flowdyn.C07.run_preserves_data']
-AUDIT_IMPORTS = AUDIT_IMPORTS + ['Flowdyn.Props.C01b']
+AUDIT_IMPORTS = AUDIT_IMPORTS + ['Flowdyn.Props.C01b', 'Flowdyn.Props.C06b']
+THEOREMS = THEOREMS + ['Flowdyn.C06.%s' % t for t in ('gearStep_conserves', 'gearStep_inv', 'gearStep_drift', 'solve_implicit_conserves', 'solve_gear_conserves', 'solve_implicit_conserves_snaps', 'solve_gear_conserves_snaps', 'thetaStep_local_weighted')]
 THEOREMS = THEOREMS + core.theorems_in(['C01b.lean'], 'Flowdyn.C01')
-PARTIAL = {"2D walls": "2D balance, periodic invariance and mass/energy invariance between slip walls (centered and HLLE, any scheme; C01b.closed2d, euler2d_sym_walls_conserve, euler2d_channel_momentum) are theorems; HLLE assumes positive extrapolated wall densities", "implicit": "a theta-step with one global time step conserves every linear functional killed by the operator (C06.thetaStep_conserves); the lift to gear with memory and to whole solves is by the sweep"}
+PARTIAL = {"2D walls": "2D balance, periodic invariance and mass/energy invariance between slip walls (centered and HLLE, any scheme; C01b.closed2d, euler2d_sym_walls_conserve, euler2d_channel_momentum) are theorems; HLLE assumes positive extrapolated wall densities", "implicit": "theta-steps and gear (BDF2 with its memory invariant) conserve every linear functional killed by the operator, for whole solves with any save times / stop criteria / restart memory and for every stored snapshot (C06b.solve_implicit_conserves, solve_gear_conserves, *_snaps), with one GLOBAL time step; with the local-time-step directive conservation is false (C06b gives the counterexample and the weighted identity thetaStep_local_weighted) and is not claimed"}
 LEVEL_NOTE = "telescoping balance, periodic and wall invariance, integrator conservation proved on the model; 2D and implicit clauses: see PARTIAL"
 
 EXPL = ['explicit', 'rk2', 'rk2_heun', 'rk3_heun', 'rk3ssp', 'rk4', 'lsrk25bb', 'lsrk26bb', 'lsrk4']
@@ -89,7 +90,7 @@ def oracle(ctx, seeds=None):
                 res.fail('2d:%s' % ['periodic', 'walls', 'per-x-walls-y'][kind], "component %d integral changes by %r (nx=%d ny=%d)" % (k, tot[k], cfg['nx'], cfg['ny']), dict(cfg2d=cfg))
     # ---- solves: integrals constant for every integrator with one global time step
     for i in range(ctx.n(14, 200)):
-        cfg = cfg1d.rand_config(rng, per=True, n=int(rng.integers(3, 9)), smooth=True,
+        cfg = cfg1d.rand_config(rng, units=False, per=True, n=int(rng.integers(3, 9)), smooth=True,
                                 model=str(rng.choice(['conv', 'burgers', 'sw', 'euler'])),
                                 scheme=cfg1d.rand_scheme(rng, ['extrapol1', 'muscl', 'extrapol2', 'extrapol3']))
         if cfg['model'] in ('sw', 'euler') and cfg['scheme'][0] not in ('extrapol1', 'muscl'):
